@@ -19,7 +19,7 @@ package main
   (ensures lifetime (= (. w lifetime) lifetime)))
 
 (func "(*main.webSessionFactory).sealToken"
-  (props C07)
+  (props C07 C06)
   (use draw aead)
   (requires has-cipher (not (= (. w aesgcm) nil)))
   (modifies rnd issued)
@@ -33,7 +33,7 @@ package main
   (ensures failure-issues-nothing (=> (not (= status 200)) (= issued (old issued)))))
 
 (func "(*main.webSessionFactory).openToken"
-  (props C07)
+  (props C07 C06)
   (use aead)
   (requires has-cipher (not (= (. w aesgcm) nil)))
   (ensures only-issued (=> (= status 200)
@@ -42,7 +42,7 @@ package main
   (ensures other-status (or (= status 200) (= status 401))))
 
 (func "(*main.webSessionFactory).splitCheckToken"
-  (props C07)
+  (props C07 C06)
   (use decimals itoa)
   (modifies now)
   (ensures accepted-shape (=> (= status 200)
@@ -341,7 +341,7 @@ package main
 (func "(*main.store).authenticate"
   (props C04 C12)
   (requires has-dir (not (= (. s dir) nil)))
-  (modifies sent.upgradeChan)
+  (modifies sent.upgradeChan io.faults br.pos hm.msg)
   (callsite "(*store.Dir).Authenticate" 0
     (requires exact-credentials (and (= $0 (. s dir)) (= $1 username) (= $2 password))))
   (send "upgradeChan" 0
@@ -361,7 +361,7 @@ package main
 (func "(*main.store).add"
   (props C17 C19)
   (requires has-dir (and (not (= (. s dir) nil)) (not (= (. s hooks) nil))))
-  (modifies sent.Notify)
+  (modifies sent.Notify fs.ent fs.dir fs.data fs.dsync fs.esync fs.next io.faults br.pos rnd now hm.msg)
   (callsite "(*store.Dir).AddUser" 0
     (requires policy-accepted (policyok (. s policy) $2 $1))
     (requires arguments (and (= $0 (. s dir)) (= $1 username) (= $2 password) (= $3 isAdmin))))
@@ -377,7 +377,7 @@ package main
 (func "(*main.store).update"
   (props C17 C19 C12)
   (requires has-dir (and (not (= (. s dir) nil)) (not (= (. s hooks) nil))))
-  (modifies sent.Notify)
+  (modifies sent.Notify fs.ent fs.dir fs.data fs.dsync fs.esync fs.next io.faults br.pos rnd now hm.msg)
   (callsite "(*store.Dir).UpdateUser" 0
     (requires policy-accepted (policyok (. s policy) $2 $1))
     (requires arguments (and (= $0 (. s dir)) (= $1 username) (= $2 password))))
@@ -393,6 +393,7 @@ package main
 (func "(*main.store).init"
   (props C17)
   (requires has-dir (not (= (. s dir) nil)))
+  (modifies fs.ent fs.dir fs.data fs.dsync fs.esync fs.next io.faults br.pos rnd now hm.msg)
   (callsite "(*store.Dir).Init" 0
     (requires policy-accepted (policyok (. s policy) $2 $1))
     (requires arguments (and (= $0 (. s dir)) (= $1 username) (= $2 password))))
@@ -404,14 +405,14 @@ package main
 (func "(*main.store).remove"
   (props C19)
   (requires has-dir (and (not (= (. s dir) nil)) (not (= (. s hooks) nil))))
-  (modifies sent.Notify)
+  (modifies sent.Notify fs.ent fs.dir fs.data fs.dsync fs.esync fs.next io.faults br.pos rnd now hm.msg)
   (callsite "(*store.Dir).RemoveUser" 0 (requires arguments (and (= $0 (. s dir)) (= $1 username))))
   (ensures notified (= sent.Notify (+ (old sent.Notify) 1))))
 
 (func "(*main.store).setAdmin"
   (props C19)
   (requires has-dir (and (not (= (. s dir) nil)) (not (= (. s hooks) nil))))
-  (modifies sent.Notify)
+  (modifies sent.Notify fs.ent fs.dir fs.data fs.dsync fs.esync fs.next io.faults br.pos rnd now hm.msg)
   (callsite "(*store.Dir).SetAdmin" 0 (requires arguments (and (= $0 (. s dir)) (= $1 username) (= $2 isAdmin))))
   (send "Notify" 0
     (requires only-after-success (and (called "(*store.Dir).SetAdmin" 0) (= (callresult "(*store.Dir).SetAdmin" 0 0) nil))))
@@ -443,7 +444,7 @@ package main
   (loop 0 (invariant complete (and (not (= (. s dir) nil)) (not (= (. s hooks) nil))))))
 
 (func "(*main.store).reload"
-  (props C18 C19)
+  (props C18 C19 C04 C12 C17)
   (requires complete (and (not (= (. s dir) nil)) (not (= (. s hooks) nil))))
   (modifies (. s dir) sent.NewStore)
   (send "NewStore" 0
